@@ -849,6 +849,19 @@ Proof.
   - prj. split; intro H; [discriminate | reflexivity].
 Qed.
 
+(* re-entrancy: the handler of nonce n runs on a state in which n is no longer parked, so a nested
+   executeClaim(n) issued by the handler (e.g. from the bridge-call callback contract) is refused *)
+Theorem exec_not_reentrant : forall s n s1 ok,
+  exec_begin s n = Some s1 ->
+  exec_begin s1 n = None /\ exec s1 n ok = (s1, Err E_NoClaim) /\
+  (fst (exec s n true)) = {| proposal := proposal s1; oracles := oracles s1; by_bridger := by_bridger s1; by_ext := by_ext s1;
+                            last_total := last_total s1; last_obs := last_obs s1; last_by := last_by s1; atts := atts s1;
+                            pending := pending s1; applied := applied s1; effects := effects s1 ++ [n]; vlog := vlog s1 |}.
+Proof.
+  intros s n s1 ok H. unfold exec_begin in H. destruct (aget Z.eqb n (pending s)) eqn:G; [|discriminate].
+  inversion H; subst s1; clear H. unfold exec_begin, exec. prj. rewrite (aget_adel_same Z.eqb), G. auto.
+Qed.
+
 (* once executed, a nonce can never be parked again, hence never executed again *)
 Theorem executed_never_pending : forall c h n,
   In n (effects (run c init h)) -> aget Z.eqb n (pending (run c init h)) = None.
